@@ -28,7 +28,10 @@ TRUSTED = ["min_cost_flow.hpp is modelled twice: at algorithm level (successive 
            "the Python Bellman-Ford that proposes the dual point (alpha, beta, gamma) is untrusted: the extracted, proved "
            "checker emd_cert_ok verifies it",
            "NumPy int32 conversion of the arguments in the wrapper (np.ascontiguousarray)"]
-ASSUMPTIONS = ["no int32 overflow: sum(P)*max(C) + |sum P - sum Q|*penalty < 2^31 (generator bound, stated)",
+ASSUMPTIONS = ["max(C) <= 2^31 - 2: with max(C) == INT_MAX the artificial-arc cost maxC + 1 wraps and the real solver never returns "
+               "(candidate finding C10-cand-2, findings/C10.json); such matrices are not generated (guard counted as "
+               "'excluded:max(C) == INT_MAX')",
+               "no int32 overflow: sum(P)*max(C) + |sum P - sum Q|*penalty < 2^31 (generator bound, stated)",
                "histograms are non-empty (len 0 makes the wrapper read vf[0] of an empty vector: outside the property's domain)",
                "explicit penalties are >= 0 (the value -1 is the C++ sentinel for 'default')",
                "gd_metric=True is only claimed for ground distances that are restrictions of a metric with zero diagonal"]
@@ -338,6 +341,13 @@ def generate(ctx):
             _encode(rng, c)
     cases.extend(one)
     cases.extend(iso)
+    keep = []
+    for c in cases:
+        if max([0] + [int(x) for r in c["c"] for x in r]) >= 2 ** 31 - 1:
+            ctx.count("excluded:max(C) == INT_MAX (candidate finding C10-cand-2)")
+            continue
+        keep.append(c)
+    cases = keep
     for c in cases:
         ctx.count("kind:" + c.get("kind", "?"))
         ctx.count("shape:%s" % ("equal" if len(c["p"]) == len(c["q"]) else "unequal"))
